@@ -217,7 +217,13 @@ fn large_case(src: &mut Src, ctx: &mut Ctx) -> Result<(), String> {
             }
             for k in 0..src.usize_in(0, 2) {
                 if !leaves.is_empty() {
-                    insts.push(MInst { name: format!("leaf{}", k), target: leaves[src.index(leaves.len())], loc: (src.signed(100), src.signed(100)), rh: false, rv: src.bool() });
+                    // half the time the leaf the level below uses as well (a cell shared between neighbouring levels)
+                    let shared = last_level.and_then(|l| cells[l].insts.iter().map(|i| i.target).find(|t| leaves.contains(t)));
+                    let target = match shared {
+                        Some(t) if src.bool() => t,
+                        _ => leaves[src.index(leaves.len())],
+                    };
+                    insts.push(MInst { name: format!("leaf{}", k), target, loc: (src.signed(100), src.signed(100)), rh: false, rv: src.bool() });
                 }
             }
         }
@@ -455,7 +461,7 @@ fn run(run: &mut Run) {
     // the same, each case in a thread of its own (per-thread state of the code starts from scratch)
     run.explore_fresh("roundtrip", run.tier.pick(3_000, 40_000), 500, &roundtrip_case);
     run.explore("negative", run.tier.pick(200_000, 2_000_000), 520, &negative_case);
-    run.explore("roundtrip-large", run.tier.pick(6_000, 60_000), 900, &large_case);
+    run.explore("roundtrip-large", run.tier.pick(6_000, 60_000), 4000, &large_case);
 }
 fn case(sub: &str) -> Option<Box<CaseFn<'static>>> {
     match sub {
